@@ -210,6 +210,21 @@ def embedBuffer (s : BS) (data : List Nat) (align blockAlign : Nat) (withSize : 
   let pad := frontPad s (data.length + (if withSize then 4 else 0)) align
   emitFront s ((if nested then le32 (data.length + pad) else []) ++ data ++ zeros pad)
 
+/-- `flatcc_builder_start_buffer`: the parent's settings are saved in the frame (here: by the caller keeping the old
+state); `is_top_buffer` is tested on the parent, so a buffer nested directly in the top-level buffer keeps the alignment
+the parent has derived so far (over-aligned, still valid). `nest_id = nest_count++`. -/
+def startBuffer (s : BS) (blockAlign : Nat) (withSize : Bool) : BS :=
+  { s with minAlign := (if s.nestId ≠ 0 ∨ s.minAlign = 0 then 1 else s.minAlign), blockAlign := blockAlign, withSize := withSize,
+           bufferMark := s.emitStart, nestId := s.nestCount, nestCount := s.nestCount + 1 }
+
+/-- `flatcc_builder_end_buffer`: header, then the parent's settings are restored and `exit_frame` raises the parent's
+min_align to this buffer's -/
+def endBuffer (saved s : BS) (ident : List Nat) (rootRef : Int) : BS × Int :=
+  let s := setMinAlign s s.blockAlign
+  let (s3, r) := createBuffer s ident rootRef s.minAlign (s.nestId ≠ 0)
+  ({ s3 with minAlign := max s3.minAlign saved.minAlign, blockAlign := saved.blockAlign, withSize := saved.withSize,
+             bufferMark := saved.bufferMark, nestId := saved.nestId }, r)
+
 /-! ## value trees (L2) -/
 
 inductive Val
@@ -260,18 +275,10 @@ partial def buildVal (s : BS) (v : Val) : BS × Int :=
     let (s, r) := endTable s fvs
     (remember s r, r)
   | .nested ident withSize blockAlign root =>
-    -- start_buffer inside a parent: fresh nest id, own min_align, end = current emit start
-    let saved := s
-    -- `if (!is_top_buffer(B) || B->min_align == 0) B->min_align = 1`, tested on the parent: a buffer nested directly
-    -- in the top-level buffer keeps the alignment the parent has derived so far (over-aligned, still valid)
-    let s1 := { s with minAlign := (if s.nestId ≠ 0 ∨ s.minAlign = 0 then 1 else s.minAlign), blockAlign := blockAlign, withSize := withSize, bufferMark := s.emitStart,
-                       nestId := s.nestCount + 1, nestCount := s.nestCount + 1 }
+    let s1 := startBuffer s blockAlign withSize
     let (s2, rootRef) := buildVal s1 root
-    let (s3, r) := createBuffer s2 ident rootRef s2.minAlign true
-    -- end_buffer restores the parent's settings; exit_frame raises the parent's min_align to the nested one
-    let s4 := { s3 with minAlign := max s3.minAlign saved.minAlign, blockAlign := saved.blockAlign, withSize := saved.withSize,
-                        bufferMark := saved.bufferMark, nestId := saved.nestId }
-    (remember s4 r, r)
+    let (s3, r) := endBuffer s s2 ident rootRef
+    (remember s3 r, r)
 end
 
 structure Config where
@@ -281,12 +288,23 @@ structure Config where
   clustering : Bool := true
   deriving Repr
 
-/-- `start_buffer … end_buffer` around a root table; result: the finished bytes in address order and the reported alignment -/
-def build (cfg : Config) (root : Val) : List Nat × Nat × List (Int × Nat) :=
-  let s0 : BS := { minAlign := 1, blockAlign := cfg.blockAlign, withSize := cfg.withSize, clustering := cfg.clustering, nestCount := 0 }
+/-- a builder after `flatcc_builder_init` -/
+def initBS : BS := { clustering := true }
+
+/-- `flatcc_builder_custom_reset` (+ `flatcc_emitter_reset` for the emitted stream): every per-build field is cleared;
+the settings (vtable clustering; cache limit and max level are not part of `BS`) stay -/
+def resetBS (s : BS) : BS :=
+  { s with front := [], back := [], minAlign := 0, blockAlign := 0, nestId := 0, nestCount := 0, bufferMark := 0,
+           withSize := false, vtCache := [], refs := #[], emits := [] }
+
+/-- `start_buffer … end_buffer` around a root object on a builder in state `s` -/
+def buildFrom (s : BS) (cfg : Config) (root : Val) : List Nat × Nat × List (Int × Nat) :=
+  let s0 := startBuffer { s with clustering := cfg.clustering } cfg.blockAlign cfg.withSize
   let (s1, rootRef) := buildVal s0 root
-  let s1 := setMinAlign s1 (if cfg.blockAlign = 0 then 0 else cfg.blockAlign)
-  let (s2, _) := createBuffer s1 cfg.ident rootRef s1.minAlign false
+  let (s2, _) := endBuffer s s1 cfg.ident rootRef
   (s2.front ++ s2.back, s2.minAlign, s2.emits.reverse)
+
+/-- a build on a freshly initialised builder: the finished bytes in address order, the reported alignment, the emit calls -/
+def build (cfg : Config) (root : Val) : List Nat × Nat × List (Int × Nat) := buildFrom initBS cfg root
 
 end Flatcc.Builder
